@@ -717,6 +717,7 @@ type tsEvent struct {
 	L  int    `json:"l"`
 	A  int    `json:"a"`
 	F  string `json:"f"`
+	B  int    `json:"b"`
 }
 
 type tsOpt struct {
@@ -740,6 +741,7 @@ type tsRun struct {
 	loggers []*slog.Entry
 	ids     map[*slog.Entry]int
 	probes  []time.Time
+	restore []func()
 }
 
 func (r *tsRun) reset() {
@@ -748,6 +750,7 @@ func (r *tsRun) reset() {
 	root := slog.New("root").Root()
 	r.loggers = []*slog.Entry{nil, root}
 	r.ids = map[*slog.Entry]int{root: 1}
+	r.restore = nil
 }
 
 func (r *tsRun) idOf(e *slog.Entry) int {
@@ -778,7 +781,7 @@ func (r *tsRun) exec(ev tsEvent) (rec map[string]any) {
 	if n := len(r.loggers) - 1; ev.L > n {
 		ev.L = (ev.L-1)%n + 1
 	}
-	rec = map[string]any{"op": ev.Op, "l": ev.L, "a": ev.A, "f": ev.F}
+	rec = map[string]any{"op": ev.Op, "l": ev.L, "a": ev.A, "f": ev.F, "b": ev.B}
 	defer func() {
 		if p := recover(); p != nil {
 			rec["panic"] = fmt.Sprint(p)
@@ -818,6 +821,16 @@ func (r *tsRun) exec(ev tsEvent) (rec map[string]any) {
 		slog.RemoveFlags(tsFlagBits[ev.F])
 	case "SetFlags":
 		slog.SetFlags(tsBase() | tsBits(r.sc.FlagSets[ev.A-1]))
+	case "ResetFlags":
+		slog.ResetFlags()
+	case "SaveMod":
+		if ev.B == 0 {
+			r.restore = append(r.restore, slog.SaveFlagsAndMod(tsBits(r.sc.FlagSets[ev.A-1])))
+		} else {
+			r.restore = append(r.restore, slog.SaveFlagsAndMod(tsBits(r.sc.FlagSets[ev.A-1]), tsBits(r.sc.FlagSets[ev.B-1])))
+		}
+	case "Restore":
+		r.restore[ev.A-1]()
 	default:
 		panic("unknown op " + ev.Op)
 	}
